@@ -116,13 +116,17 @@ func bodyWritesDepth(fn *ssa.Function, depth int) []bodyWrite {
 	return out
 }
 
-// headerSets lists (net/http.Header).Set calls with a constant key; value constant if any.
+// headerSets lists (net/http.Header).Set calls with a constant key; value constant if any.  A call to an unexported
+// helper of the module that sets a header on the ResponseWriter it is given counts as a header set at the call site:
+// valV is then the caller's argument the helper stores (or the helper's constant), inner the Set call inside the helper.
 type headerSet struct {
 	call     *ssa.Call
 	key, val string
+	valV     ssa.Value
+	inner    *ssa.Call
 }
 
-func headerSets(fn *ssa.Function) []headerSet {
+func directHeaderSets(fn *ssa.Function) []headerSet {
 	var out []headerSet
 	core.EachInstr(fn, func(in ssa.Instruction) {
 		call, ok := in.(*ssa.Call)
@@ -131,9 +135,63 @@ func headerSets(fn *ssa.Function) []headerSet {
 		}
 		k, _ := core.ConstString(call.Call.Args[1])
 		v, _ := core.ConstString(call.Call.Args[2])
-		out = append(out, headerSet{call, k, v})
+		out = append(out, headerSet{call: call, key: k, val: v, valV: call.Call.Args[2]})
 	})
 	return out
+}
+
+func headerSets(fn *ssa.Function) []headerSet {
+	out := directHeaderSets(fn)
+	core.EachInstr(fn, func(in ssa.Instruction) {
+		call, ok := in.(*ssa.Call)
+		if !ok {
+			return
+		}
+		f := call.Call.StaticCallee()
+		if f == nil || f == fn || !core.InModule(f) || f.Parent() != nil || f.Object() == nil || f.Object().Exported() || len(f.Blocks) == 0 || f.Signature.Recv() != nil {
+			return
+		}
+		hasW := false
+		for _, p := range f.Params {
+			if isRespWriter(p.Type()) {
+				hasW = true
+			}
+		}
+		if !hasW {
+			return
+		}
+		for _, h := range directHeaderSets(f) {
+			hs := headerSet{call: call, key: h.key, val: h.val, valV: h.valV, inner: h.call}
+			if par, isPar := core.StripConv(h.valV).(*ssa.Parameter); isPar {
+				for i, q := range f.Params {
+					if q == par && i < len(call.Call.Args) {
+						hs.valV = call.Call.Args[i]
+						hs.val, _ = core.ConstString(hs.valV)
+					}
+				}
+			}
+			out = append(out, hs)
+		}
+	})
+	return out
+}
+
+// setBefore: the header set h takes effect before the write w of the same function: h precedes w, or both are one call
+// to a helper in which the Set precedes every write the helper makes.
+func setBefore(h headerSet, w bodyWrite) bool {
+	if ssa.Instruction(h.call) != w.in {
+		return core.Precedes(h.call, w.in)
+	}
+	if h.inner == nil {
+		return false
+	}
+	ws := bodyWrites(h.inner.Parent())
+	for _, x := range ws {
+		if !core.Precedes(h.inner, x.in) {
+			return false
+		}
+	}
+	return len(ws) > 0
 }
 
 func runC19(c *Ctx) {
@@ -194,7 +252,7 @@ func runC19(c *Ctx) {
 				continue
 			}
 			n++
-			R.Check(fromServer(h.call.Call.Args[2], 0), "C19.envelope", "http|SetHeader|server-is-the-configured-value", P.InstrPos(h.call),
+			R.Check(fromServer(h.valV, 0), "C19.envelope", "http|SetHeader|server-is-the-configured-value", P.InstrPos(h.call),
 				"the Server header is the package variable Server as read for this response",
 				"the Server header is not computed from the package variable Server at the time of the response (a cached or different value): a server name configured later never reaches the responses", nil)
 		}
@@ -225,7 +283,7 @@ func runC19(c *Ctx) {
 				}
 			}
 			for _, h := range hs {
-				if h.key == "Content-Type" && core.Precedes(h.call, w.in) {
+				if h.key == "Content-Type" && setBefore(h, w) {
 					okCT = true
 				}
 			}
@@ -309,7 +367,7 @@ func runC19(c *Ctx) {
 					continue
 				}
 				// the value may be selected before the call (contentType := json; if jsonp { contentType = javascript })
-				for _, vc := range core.ValueCases(h.call.Call.Args[2], h.call.Block()) {
+				for _, vc := range core.ValueCases(h.valV, h.call.Block()) {
 					val, _ := core.ConstString(vc.Val)
 					var pol, found bool
 					for _, a := range vc.Atoms {
